@@ -346,6 +346,23 @@ def run_conv(ctx, spec):
       if util.Bytes2Int(b'\x00' * pad + b) != v:
         ctx.violation('bytes2int-leading-zeros', 'v=%d pad=%d' % (v, pad),
                       {'v': v})
+    # exact byte strings, leading zero bytes included (a digest's length is
+    # part of its meaning: it sets the truncation of 2.4)
+    for pad in (0, 1, 2, 5):
+      b2 = b'\x00' * pad + b
+      hs2 = b2.hex()
+      try:
+        got = util.Hex2Bytes(hs2)
+        odd = util.Hex2Bytes(hs2[1:]) if hs2[:1] == '0' else b2
+      except Exception as e:  # pylint: disable=broad-except
+        got = odd = repr(e)
+      ctx.count('hex_bytes_roundtrips')
+      if got != b2 or odd != b2:
+        ctx.violation('hex2bytes-bytes-roundtrip',
+                      'Hex2Bytes(%r) -> %r (odd-length form -> %r)' % (
+                          hs2[:40], got if isinstance(got, str) else got.hex()[:40],
+                          odd if isinstance(odd, str) else odd.hex()[:40]),
+                      {'hex': hs2})
     hx = format(v, 'x')
     for hs in (hx, '0' + hx, hx.upper()):
       try:
